@@ -22,8 +22,10 @@ Definition pruned_cell (h : bytes) (d : N) : cell :=
 Definition cell_mask (c : cell) : N := match c with Cell _ _ m _ _ => m end.
 
 (* pruneCells.  [pruned path] decides by position in the tree (a path is the
-   list of reference indices from the root); the Go code decides by immutable
-   cell pointer, which the harness resolves to positions. *)
+   list of reference indices from the root), as the Go code does: the cursor
+   records its path and the pruned set holds paths (before the repair "prune
+   positions, not cells" it held immutable-cell pointers, so a cell occurring
+   at several positions was pruned at all of them). *)
 Fixpoint prune (pruned : list nat -> bool) (path : list nat) (c : cell) : res cell :=
   match c with
   | Cell special ty m data refs =>
@@ -155,7 +157,8 @@ End K.
     pruned set belongs to the cursor and is created empty by [Cursor()].  So the
     model of an operation is a pure function of (root, operation), and the
     model of a history is the list of the operations' results.  [same p q]:
-    positions p and q hold the same immutable cell (Go prunes by identity). *)
+    when a prune at q also prunes p; the Go code prunes positions, so the
+    harness instantiates it with equality of paths ([path_eqb]). *)
 Inductive op :=
 | OpKey (key : bits) (vbits : nat)        (* tlb.ProveKeyInHashmap(prover, root, key) *)
 | OpWalk (prunes : list (list nat))       (* Cursor(); Ref/Prune at each path; CreateProof *)
